@@ -11,7 +11,7 @@ git stash -q
 PYTHONPATH=$WT /venv/bin/python demo_$P.py > /tmp/seed-$NAME.without.log 2>&1; RC_WITHOUT=$?
 git stash pop -q
 echo "demo with change: exit $RC_WITH ; without: exit $RC_WITHOUT"
-NESSAI_REPO=$WT /verif/vcheck $P > /tmp/seed-$NAME.check.log 2>&1; RC_CHECK=$?
+NESSAI_REPO=$WT PYVC_OUT=/tmp/seed-$NAME.out /verif/vcheck $P > /tmp/seed-$NAME.check.log 2>&1; RC_CHECK=$?
 grep -E "^VIOLATION|^\[" /tmp/seed-$NAME.check.log | head -6
 echo "check exit: $RC_CHECK"
 D=/verif/seeded/$NAME; mkdir -p $D
@@ -21,3 +21,4 @@ cat > $D/meta.json <<EOM
  "check_cmd": "NESSAI_REPO=<tree with patch applied> ./vcheck $P", "check_exit": $RC_CHECK,
  "caught": $( [ $RC_CHECK -eq 1 ] && echo true || echo false )}
 EOM
+rm -rf /tmp/seed-$NAME.out
